@@ -97,7 +97,10 @@ pub(crate) trait FixedChannelRegion: ChannelRegion {
 impl<F: FixedChannelRegion> RegionHandler for FixedChannelPlan<F> {
     fn process_join_accept(&mut self, c_f_list: Option<&CfList>) {
         if let Some(CfList::FixedChannel(channel_mask)) = c_f_list {
-            self.channel_mask_set(channel_mask.clone());
+            // A mask that enables no channel at all is not a usable channel plan: ignore it
+            if channel_mask.as_ref().iter().any(|bank| *bank != 0) {
+                self.channel_mask_set(channel_mask.clone());
+            }
         }
     }
 
